@@ -5,6 +5,7 @@ use snel_harness::rng::Rng;
 #[derive(Clone, Copy, Debug, PartialEq, Eq)]
 pub enum ColTy {
     Int,
+    IntWide,
     IntNull,
     BigInt,
     Float,
@@ -24,6 +25,7 @@ impl ColTy {
     pub fn name(&self) -> &'static str {
         match self {
             ColTy::Int => "int",
+            ColTy::IntWide => "int-wide",
             ColTy::IntNull => "int|null",
             ColTy::BigInt => "bigint",
             ColTy::Float => "float",
@@ -41,6 +43,7 @@ impl ColTy {
     }
 }
 
+const WIDE: &[i64] = &[-11, -10, -9, -2, -1, 0, 1, 2, 9, 10, 11, 19, 20, 99, 100, 101, 120];
 const STRS: &[&str] = &["a", "b", "ab", "B", "zz", "é", "x y", "a,b", "\"q\""];
 const NUMSTRS: &[&str] = &[
     "7", "07", "+7", "-0", "0", "12", "-3", "9223372036854775807", "9223372036854775808", "-9223372036854775808",
@@ -62,6 +65,8 @@ const YEARS: &[i64] = &[0, 951_782_400, 1_582_934_400, 1_600_000_000, 1_704_067_
 pub fn gen_value(ty: ColTy, r: &mut Rng) -> Sc {
     match ty {
         ColTy::Int => Sc::Int(r.range(-5, 20)),
+        // values on both sides of digit boundaries: string order ≠ numeric order
+        ColTy::IntWide => Sc::Int(if r.chance(2, 3) { *r.pick(WIDE) } else { r.range(-12, 120) }),
         ColTy::IntNull => {
             if r.chance(3, 10) {
                 Sc::Null
@@ -157,9 +162,10 @@ pub struct Case {
     pub clean: bool,
 }
 
-const CLEAN_TYS: &[ColTy] = &[ColTy::Int, ColTy::Str, ColTy::Bool, ColTy::Time, ColTy::Int, ColTy::Str];
+const CLEAN_TYS: &[ColTy] = &[ColTy::Int, ColTy::Str, ColTy::Bool, ColTy::Time, ColTy::Int, ColTy::Str, ColTy::IntWide];
 const EDGE_TYS: &[ColTy] = &[
     ColTy::Int,
+    ColTy::IntWide,
     ColTy::IntNull,
     ColTy::BigInt,
     ColTy::Float,
@@ -207,8 +213,8 @@ pub fn gen_case(r: &mut Rng) -> Case {
                 0 => Metric::CountAll,
                 1 => Metric::CountField(any(r)),
                 2 => pick_col(r, &tys, &[ColTy::Str, ColTy::Bool]).map(Metric::CountUnique).unwrap_or(Metric::CountAll),
-                3 => pick_col(r, &tys, &[ColTy::Int]).map(Metric::Total).unwrap_or(Metric::CountAll),
-                4 => pick_col(r, &tys, &[ColTy::Int]).map(Metric::Avg).unwrap_or(Metric::CountAll),
+                3 => pick_col(r, &tys, &[ColTy::Int, ColTy::IntWide]).map(Metric::Total).unwrap_or(Metric::CountAll),
+                4 => pick_col(r, &tys, &[ColTy::Int, ColTy::IntWide]).map(Metric::Avg).unwrap_or(Metric::CountAll),
                 5 => pick_col(r, &tys, &[ColTy::Int, ColTy::Str, ColTy::Time]).map(Metric::Min).unwrap_or(Metric::CountAll),
                 _ => pick_col(r, &tys, &[ColTy::Int, ColTy::Str, ColTy::Time]).map(Metric::Max).unwrap_or(Metric::CountAll),
             }
@@ -232,7 +238,7 @@ pub fn gen_case(r: &mut Rng) -> Case {
         let mut g = vec![];
         for _ in 0..n {
             let f = if clean {
-                pick_col(r, &tys, &[ColTy::Str, ColTy::Bool, ColTy::Int])
+                pick_col(r, &tys, &[ColTy::Str, ColTy::Bool, ColTy::Int, ColTy::IntWide, ColTy::IntWide])
             } else {
                 Some(any(r))
             };
@@ -285,7 +291,15 @@ pub fn gen_case(r: &mut Rng) -> Case {
             .collect();
         rows.push(row);
     }
-    Case { plan: PlanSpec { metrics, group_by, bucket, tf, width }, tys, rows, clean }
+    // LIMIT / OFFSET without ORDER BY: from 1 up to about the number of groups, so that a flow
+    // often holds more groups than OFFSET + LIMIT
+    let (limit, offset) = if (group_by.is_some() || bucket.is_some()) && r.chance(2, 5) {
+        // OFFSET only together with LIMIT (the query handler rejects it otherwise)
+        (Some(1 + r.below(5) as u32), if r.chance(1, 3) { Some(r.below(3) as u32) } else { None })
+    } else {
+        (None, None)
+    };
+    Case { plan: PlanSpec { metrics, group_by, bucket, tf, width, limit, offset }, tys, rows, clean }
 }
 
 /// split the rows over 1–3 flows and each flow over 1–3 batches (contiguous or scattered)
